@@ -392,11 +392,12 @@ func itemsHex(m [][]byte) []string {
 // ---------------------------------------------------------------- the run
 
 type runner struct {
-	o     *vh.Opts
-	r     *vh.Rand
-	res   *vh.Result
-	cases *vh.Cases
-	cur   string // file where the case being run is recorded (for crash reports)
+	o      *vh.Opts
+	r      *vh.Rand
+	res    *vh.Result
+	cases  *vh.Cases
+	cur    string // file where the case being run is recorded (for crash reports)
+	budget int    // cap on the number of model cases taken from the generated lists
 }
 
 func (h *runner) mark(rp replay) {
@@ -462,11 +463,17 @@ func be(b []byte) uint64 {
 const allocGuard = 16 << 20
 
 func (h *runner) addBufCase(input []seg, o sliceObs) {
+	if h.cases.Len() >= h.budget {
+		return
+	}
 	h.cases.Add(fmt.Sprintf("CBuf %s %s %s %s", coqSegs(input), vh.N(uint64(o.tag)), coqSegs(itemSegs(o.items)), vh.Hex(o.rest)),
 		map[string]any{"kind": "buf", "input": shortHex(segsFlat(input)), "tag": o.tag, "n_items": len(o.items), "msg": o.msg})
 }
 
 func (h *runner) addStreamCase(input []seg, ck chunking, o sliceObs) {
+	if h.cases.Len() >= h.budget {
+		return
+	}
 	h.cases.Add(fmt.Sprintf("CStream %s %s %s %s %s %s %s", coqSegs(input), coqInts(ck.Sizes), vh.N(uint64(ck.Unit)), vh.N(uint64(ck.Ending)),
 		vh.N(uint64(o.tag)), coqSegs(itemSegs(o.items)), vh.Hex(o.rest)),
 		map[string]any{"kind": "stream", "input": shortHex(segsFlat(input)), "chunking": ck, "tag": o.tag, "n_items": len(o.items), "msg": o.msg})
@@ -839,6 +846,9 @@ func readFrame(in []byte, ck chunking, nb int) (o frameObs) {
 }
 
 func (h *runner) addFrameCase(in []byte, ck chunking, nb int, o frameObs) {
+	if h.cases.Len() >= h.budget+h.budget/3 {
+		return
+	}
 	h.cases.Add(fmt.Sprintf("CFrame %s %s %s %s %s %s %s %s %s %s", vh.Hex(in), coqInts(ck.Sizes), vh.N(uint64(ck.Unit)), vh.N(uint64(ck.Ending)), vh.N(uint64(nb)),
 		vh.N(uint64(o.tag)), vh.Hex(o.ver), coqHexList(o.hdrs), coqHexList(o.bodies), vh.Hex(o.tail)),
 		map[string]any{"kind": "frame", "input": shortHex(in), "chunking": ck, "nb": nb, "tag": o.tag, "msg": o.msg})
@@ -934,7 +944,7 @@ func child(o *vh.Opts) {
 	// cap the address space: a hostile length must never make the check eat the machine
 	_ = syscall.Setrlimit(syscall.RLIMIT_AS, &syscall.Rlimit{Cur: 12 << 30, Max: 12 << 30})
 	debug.SetGCPercent(50)
-	h := &runner{o: o, r: vh.NewRand(o.Seed), cur: filepath.Join(o.Out, "current_case.json"),
+	h := &runner{o: o, r: vh.NewRand(o.Seed), cur: filepath.Join(o.Out, "current_case.json"), budget: o.Pick(2200, 10000),
 		res:   vh.NewResult("lists written by WriteLengthedSlice/NewLengthedBytesSlice read back by ReadLengthedBytesSlice (with trailing data) and ReadLengthedSlice (chunked readers, 3 EOF policies); every/200 strict prefixes; bit flips, +-1 and boundary values in length fields, byte flips/drops/dups, raw bytes; frames; EnsureRead. Non-trivial = non-empty list / frame"),
 		cases: &vh.Cases{Import: "From MV Require Import C29.Model.", Type: "case", CheckFn: "check", Shard: 400}}
 	res := h.res
@@ -1032,6 +1042,7 @@ func child(o *vh.Opts) {
 			h.oracleMutated(in, what, k < 2)
 		}
 	}
+	res.Write(o.Out) // partial result: survives a later crash of the process
 	lap("generated lists")
 	// big lists around the limit and up to 40000 items
 	nb := o.Pick(6, 60)
@@ -1070,9 +1081,9 @@ func child(o *vh.Opts) {
 		}
 	}
 	lap("random big lists")
-	h.ensureCases(o.Pick(200, 3000))
+	h.ensureCases(o.Pick(200, 2000))
 	lap("ensure")
-	h.frames(o.Pick(40, 1200))
+	h.frames(o.Pick(40, 600))
 	lap("frames")
 
 	var ms runtime.MemStats
@@ -1105,6 +1116,13 @@ func main() {
 	}
 	// the real code killed the process: report it as a failure of the property (never a panic / crash)
 	res := vh.NewResult("crash of the child process while running the real code")
+	if b, e := os.ReadFile(filepath.Join(o.Out, "result.json")); e == nil {
+		var partial vh.Result
+		if json.Unmarshal(b, &partial) == nil {
+			res.Failures = append(res.Failures, partial.Failures...)
+			res.Evaluations = partial.Evaluations
+		}
+	}
 	var rp any
 	if b, e := os.ReadFile(filepath.Join(o.Out, "current_case.json")); e == nil {
 		_ = json.Unmarshal(b, &rp)
